@@ -58,14 +58,12 @@ class WCCN(TransformerMixin, BaseEstimator):
         n_classes = len(possible_labels)
 
         # 1. compute the means for each label
-        mu_l = numerical_module.array(
-            [
-                numerical_module.mean(
-                    X[numerical_module.where(y_ == label)[0]], axis=0
-                )
-                for label in possible_labels
-            ]
-        )
+        mu_l = {
+            label: numerical_module.mean(
+                X[numerical_module.where(y_ == label)[0]], axis=0
+            )
+            for label in possible_labels
+        }
 
         # 2. Compute Sw
         Sw = numerical_module.zeros((X.shape[1], X.shape[1]), dtype=float)
